@@ -57,3 +57,76 @@ Proof.
              | |- context [if ?b then _ else _] => destruct b eqn:?
              end; try reflexivity; try (exfalso; lia); try discriminate; destruct sub; reflexivity.
 Qed.
+
+(* ---- Loop.split_one_child(child_index=None): the reverse scan for the child to split (round 4) ----
+   `for reverse_idx, child in enumerate(reversed(self))` with `break` and `for ... else`, all four tests (t4..t7) taken
+   from the generated file; the action (count - 1, a copy with count 1 inserted behind) is `split_at`.  The tests t1-t3
+   guard the explicit-index form, which the Tabor compiler does not use; t8 only issues a warning. *)
+Definition so_obs {T} (f : bool -> bool -> Z -> Z -> bool -> Z -> bool -> T) (ci : option nat) (child : loop) : T :=
+  f (match ci with Some _ => true | None => false end) (match ci with Some _ => false | None => true end)
+    (match ci with Some i => Z.of_nat i | None => 0 end) 0 false (l_rep child) (l_vol child).
+
+(* rl = the children not yet visited, last child first; the forward index of its head is `length (tl rl)`;
+   result None = RuntimeError('There is no child with repetition count > 1') *)
+Fixpoint scan_gen (rl : list loop) (ci : option nat) : option nat :=
+  match rl with
+  | [] => if so_obs gen_split_one_child_t7 ci dummy_l then None else ci            (* for-else *)
+  | c :: r =>
+      if so_obs gen_split_one_child_t4 ci c then
+        if so_obs gen_split_one_child_t5 ci c then Some (length r)                  (* child_index = idx; break *)
+        else if so_obs gen_split_one_child_t6 ci c then scan_gen r (Some (length r))
+        else scan_gen r ci
+      else scan_gen r ci
+  end.
+
+Fixpoint split_at (i : nat) (l : list loop) : list loop :=
+  match l, i with
+  | [], _ => []
+  | c :: t, O => set_rep c (l_rep c - 1) :: set_rep c 1 :: t
+  | c :: t, S j => c :: split_at j t
+  end.
+
+Fixpoint first_rev (P : loop -> bool) (rl : list loop) : option nat :=
+  match rl with [] => None | c :: r => if P c then Some (length r) else first_rev P r end.
+
+Lemma first_rev_snoc P a c :
+  first_rev P (a ++ [c]) = match first_rev P a with
+                           | Some i => Some (S i)
+                           | None => if P c then Some O else None
+                           end.
+Proof.
+  induction a as [|x a IH]; cbn; auto.
+  rewrite app_length; cbn. rewrite Nat.add_1_r. destruct (P x); auto.
+Qed.
+
+Lemma split_last_p_first_rev p l :
+  split_last_p p l = option_map (fun i => split_at i l) (first_rev (fun c => (l_rep c >? 1) && p c) (rev l)).
+Proof.
+  induction l as [|c t IH]; cbn [split_last_p rev]; auto.
+  rewrite first_rev_snoc, IH.
+  destruct (first_rev _ (rev t)); cbn; auto. destruct ((l_rep c >? 1) && p c); reflexivity.
+Qed.
+
+Lemma scan_gen_spec rl : forall ci,
+  scan_gen rl ci =
+  match first_rev (fun c => (l_rep c >? 1) && negb (l_vol c)) rl with
+  | Some i => Some i
+  | None => match ci with Some j => Some j | None => first_rev (fun c => (l_rep c >? 1) && true) rl end
+  end.
+Proof.
+  induction rl as [|c r IH]; intros ci.
+  - cbn. destruct ci; reflexivity.
+  - cbn [scan_gen first_rev]. unfold so_obs, gen_split_one_child_t4, gen_split_one_child_t5, gen_split_one_child_t6.
+    destruct (l_rep c >? 1); cbn [andb].
+    + destruct (l_vol c); cbn [negb].
+      * destruct ci; rewrite IH; destruct (first_rev _ r); reflexivity.
+      * reflexivity.
+    + apply IH.
+Qed.
+
+Theorem gen_split_last_eq l :
+  split_last l = option_map (fun i => split_at i l) (scan_gen (rev l) None).
+Proof.
+  unfold split_last. rewrite scan_gen_spec, !split_last_p_first_rev.
+  destruct (first_rev (fun c => (l_rep c >? 1) && negb (l_vol c)) (rev l)); reflexivity.
+Qed.
